@@ -176,6 +176,31 @@ Definition mirror_result (L w : Z) (x : result) : result :=
 Definition forget_rr (x : result) : result :=
   match x with Raise => Raise | Done o => Done (drop_rr o) end.
 
+(* ------------------------------------------------------------------ molecules *)
+(* CHICMolecule._add_fragment / NlaIIIMolecule._add_fragment: the molecule's cut site starts at its first
+   fragment's site and moves to the outermost one - min for a forward fragment, max for a reverse one.
+   A fragment is (fragment.strand, fragment.site_location[1]). *)
+Definition mol_update (cur : Z) (f : bool * Z) : Z :=
+  if fst f then Z.max (snd f) cur else Z.min (snd f) cur.
+Definition mol_site (frags : list (bool * Z)) : option Z :=
+  match frags with [] => None | f :: rest => Some (fold_left mol_update rest (snd f)) end.
+(* CHICMolecule.write_tags: the DS tag of every fragment of the molecule after tagging *)
+Definition chic_mol_ds (radius : Z) (frags : list (bool * Z)) : list Z :=
+  if (0 <? radius) && (1 <? Z.of_nat (length frags))
+  then match mol_site frags with Some s => map (fun _ => s) frags | None => [] end
+  else map snd frags.
+
+Definition mirror_frag (L w : Z) (f : bool * Z) : bool * Z := (negb (fst f), L - w - snd f).
+Definition frag_site (x : result) : list (bool * Z) :=
+  match x with
+  | Done o => match o_cut_strand o, o_loc o with Some s, Some p => [(s, p)] | _, _ => [] end
+  | Raise => []
+  end.
+Definition chic_frag_sites (c : cfg) (rs : list read) : list (bool * Z) :=
+  flat_map (fun r => frag_site (chic_fragment c false (Some r) None)) rs.
+Definition nla_frag_sites (c : cfg) (rs : list read) : list (bool * Z) :=
+  flat_map (fun r => frag_site (nla_fragment c true false (Some r))) rs.
+
 (* ------------------------------------------------------------------ specification vocabulary *)
 (* a fragment that was assigned site [p]: DS = p, RS = rs, RZ = rz, no rejection, valid unless it was
    qcfail on input *)
@@ -226,7 +251,9 @@ Definition enc_read (r : read) : Val :=
 
 (* mode 0: [kind; cfg; two_reads; pre_qcfail; r1; r2]  -> observation   (kind 0 = nla, 1 = chic)
    mode 1: [kind; cycles; mid; pos; reverse; clip; tail; flag; mx] -> the simulated read (ground truth layer)
-   mode 2: [L; read] -> mirror L read *)
+   mode 2: [L; read] -> mirror L read
+   mode 3: [radius; [[strand; site]...]] -> DS of every fragment after CHICMolecule.write_tags
+   mode 4: [_; [[strand; site]...]] -> the molecule's cut site *)
 Definition run_C09 (mode : Z) (v : Val) : Val :=
   match mode with
   | 0 => let c := dec_cfg (nthV 1 v) in
@@ -243,5 +270,7 @@ Definition run_C09 (mode : Z) (v : Val) : Val :=
          | Some r => enc_read (mirror (getZ (nthV 0 v)) r)
          | None => bad
          end
+  | 3 => ofZs (chic_mol_ds (getZ (nthV 0 v)) (map (fun f => (getB (nthV 0 f), getZ (nthV 1 f))) (getL (nthV 1 v))))
+  | 4 => ofOptZ (mol_site (map (fun f => (getB (nthV 0 f), getZ (nthV 1 f))) (getL (nthV 1 v))))
   | _ => bad
   end.
